@@ -620,28 +620,35 @@ fn logical_or<'s>(input: &mut &'s str) -> PResult<(), SemverParseError<&'s str>>
 fn range<'s>(input: &mut &'s str) -> PResult<Vec<BoundSet>, SemverParseError<&'s str>> {
     // TODO: loose parsing means that `1.2.3 foo` translates to `1.2.3`, so we
     // need to do some stuff here to filter out unwanted BoundSets.
-    Parser::map(
-        separated(0.., simple, space1),
-        |bs: Vec<Option<BoundSet>>| {
-            // A space-separated comparator set is a conjunction: when two of
-            // its comparators cannot both hold, the whole set matches nothing.
-            let mut comparators = bs.into_iter().flatten();
-            let Some(first) = comparators.next() else {
-                return Vec::new();
-            };
-            comparators
-                .try_fold(first, |acc, bs| acc.intersect(&bs))
-                .into_iter()
-                .collect()
-        },
-    )
+    alt((
+        // range ::= hyphen | ...: a hyphen range is a whole alternative, not
+        // one comparator of a set (`1 - 2 foo` is `1 2`, as in node-semver).
+        Parser::map(
+            terminated(hyphen, peek((space0, alt((literal("||"), eof))))),
+            |bs: Option<BoundSet>| bs.into_iter().collect(),
+        ),
+        Parser::map(
+            separated(0.., simple, space1),
+            |bs: Vec<Option<BoundSet>>| {
+                // A space-separated comparator set is a conjunction: when two of
+                // its comparators cannot both hold, the whole set matches nothing.
+                let mut comparators = bs.into_iter().flatten();
+                let Some(first) = comparators.next() else {
+                    return Vec::new();
+                };
+                comparators
+                    .try_fold(first, |acc, bs| acc.intersect(&bs))
+                    .into_iter()
+                    .collect()
+            },
+        ),
+    ))
     .parse_next(input)
 }
 
 // simple ::= primitive | partial | tilde | caret | garbage
 fn simple<'s>(input: &mut &'s str) -> PResult<Option<BoundSet>, SemverParseError<&'s str>> {
     alt((
-        terminated(hyphen, peek(alt((space1, literal("||"), eof)))),
         terminated(primitive, peek(alt((space1, literal("||"), eof)))),
         terminated(partial, peek(alt((space1, literal("||"), eof)))),
         terminated(tilde, peek(alt((space1, literal("||"), eof)))),
